@@ -28,6 +28,19 @@ PLAN = {
         "quick": [S("hook-default")],
         "thorough": [S("hook-default"), S("m3-none", tag="tables")],
     },
+    "C07": {
+        "quick": [S("hook-default"), S("m1-default", only="transcript"), S("m2-default-unsafe", only="transcript"), S("m3-none", only="transcript"),
+                  S("m4-embedded-min", only="transcript"), S("m5-static-sse2", only="transcript"), S("m6-static-ssse3", only="transcript"),
+                  S("m7-static-sse41", only="transcript"), S("m8-static-avx2-unsafe", only="transcript")],
+        "thorough": [S("hook-default")] + [S(c, only="transcript") for c in [
+                  "m1-default", "m2-default-unsafe", "m3-none", "m4-embedded-min", "m5-static-sse2", "m6-static-ssse3", "m7-static-sse41", "m8-static-avx2-unsafe",
+                  "hook-nosimd", "hook-unsafe",
+                  "t-dec-half-nosimdhex", "t-dec-quarter-nosimdhex", "t-dec-min-simdparse", "t-enc-half-nosimdhex", "t-enc-min-simdconvert",
+                  "t-simd-body-only", "t-simd-agg-only", "t-simd-parse-only", "t-simd-convert-only", "t-len-table-only", "t-q-table-only",
+                  "t-q-table-double-only", "t-pearson-double-only", "t-lowmem-buckets-default", "t-unsafe-nosimd", "t-unsafe-static-sse2",
+                  "t-unsafe-static-ssse3", "t-unsafe-static-sse41", "t-static-avx2", "t-default-ssse3flags", "t-default-avx2flags", "t-embedded-unsafe",
+                  "dbg-default", "dbg-nosimd", "dbg-unsafe"]],
+    },
     "C08": {
         "quick": [S("hook-default")],
         "thorough": [S("hook-default"), S("m3-none", tag="nosimd")],
@@ -79,6 +92,11 @@ PLAN = {
                   S("hookdbg-explore", tag="dbg-c12", check="C12"),
                   S("hookdbg-explore", tag="dbg-c14", check="C14")],
     },
+    "C18": {
+        "quick": [S("hook-default"), S("m3-none", tag="nosimd"), S("m5-static-sse2", tag="static")],
+        "thorough": [S("hook-default"), S("m1-default", tag="plain"), S("m3-none", tag="nosimd"), S("m4-embedded-min", tag="embedded"), S("m5-static-sse2", tag="static"),
+                     S("m8-static-avx2-unsafe", tag="avx2"), S("s-strict-default", tag="strict"), S("dbg-default", tag="dbg")],
+    },
     "C13": {
         "quick": [S("hook-default")],
         "thorough": [S("hook-default"), S("m3-none", tag="tables")],
@@ -127,6 +145,12 @@ LEVEL_TEXT = {
         "exhaustive bounded enumeration of byte arrays through binary conversion, all accessors and the hex layout",
         "All arrays deviating from 4 backgrounds in one byte plus all 2^16 header windows: store/try_from round trips (array and slice), every accessor including quartile(i) for all i and the out-of-range panic, the hex layout, clear_checksum; every slice length 0..=2*SIZE.",
         "DESIGN.md section 2, C06", "Trusted: field layout as stated in the property.", []),
+    "C07": _lt(
+        "configuration-matrix enumeration (every listed build produces identical per-block transcript digests of 13 exhaustive public-API enumerations), every compiled aggregation backend driven directly on exhaustive bucket-class compositions and per-lane sweeps, and preemption-bounded exhaustive schedule exploration of the first dispatching calls over real threads and the real OnceLock cells (one process per schedule)",
+        "Three finite spaces are enumerated completely: (1) the listed configuration matrix (every cfg_if arm of the anchored files that compiles for x86-64 stable is selected by at least one entry; 9 builds quick, 44 thorough) x a 1.77M-record public-API transcript, compared block by block against the hook-default build, which is itself judged against the reference by the other checks; (2) every compiled bucket-aggregation backend (naive, SSE2, SSSE3, AVX2, dispatch) on all 3-class compositions x value alphabets around 2^31 and 2^32 x placements and on per-lane sweeps (body backends are C02); (3) all schedules of 2- and 3-thread harnesses of first dispatching calls up to a preemption bound, with scheduling points at function entry, closure entry and each CPU probe, blocking in OnceLock observed through /proc.",
+        "DESIGN.md section 2, C07",
+        "Trusted: std::sync::OnceLock itself; the explorer serialises threads, so data races on plain memory and weak-memory effects are not modelled. Configurations outside the list (non-x86 backends, nightly-only features) are not covered.",
+        ["the configuration list covers every cfg_if arm that compiles on x86-64 stable", "std::sync::OnceLock is correct"]),
     "C08": _lt(
         "exhaustive bounded enumeration of hash pairs checked against the metric laws (no expected values)",
         "Reflexivity, zero-iff-equal, symmetry, boundedness, attained maximum, additivity of the length term and checksum clearing are checked on all one-byte-deviation pairs (all 2^16 values at every position of the whole hash) and on all ordered pairs of a 64/256-hash pool, every variant, both modes.",
@@ -171,6 +195,12 @@ LEVEL_TEXT = {
         "DESIGN.md section 2, C17",
         "Limits: undefined behaviour is visible only through these monitors (false invariant, panic, signal); raw-pointer SIMD code touches addresses that depend only on fixed-size array references. Non-x86 backends are not compiled here.",
         ["UB without an observable effect in these builds is not detected"]),
+    "C18": _lt(
+        "allocation monitor (counting global allocator, armed per operation) attached to exhaustively enumerated call sequences in several build configurations, first calls in fresh processes, and a finite list of no-std build obligations",
+        "A counting #[global_allocator] is armed around each core operation (new, update in piece rotations, processed_len, finalize_with_options x 32, finalize, clone, drop, TryFrom, store_into_*, from_str_bytes accepting and rejecting, FromStr, compare*, accessors, clear_checksum, string compare) for every short input, stream prefixes and every one-byte-deviation hash value, every variant, in the default-dispatch, no-SIMD and static-SIMD builds; each operation kind is also run as the very first library call of a fresh process (dispatch initialisation). The invariant is allocator calls == 0. The documented allocators are exercised to show the counter is live. The library must build with std and alloc disabled in 8 feature sets.",
+        "DESIGN.md section 2, C18",
+        "Allocations on other threads or inside the kernel are out of scope; counts are per calling thread while armed.",
+        []),
     "C13": _lt(
         "exhaustive enumeration of ordered string pairs over a valid/invalid alphabet vs parse-then-compare",
         "All ordered pairs of a 34-string alphabet per variant (valid in every case/prefix form with one-field twins; invalid in every way the parser distinguishes) through compare_with / compare; result or (side, error) must equal parse-left, parse-right, compare.",
@@ -187,4 +217,19 @@ LEVEL_TEXT = {
         "assumptions": ["pinned reference table equals the official TLSH topval table", "state injection hook is the identity on reachable states (validated in C01g/C11 thorough)"],
     },
 }
+# Build obligations (compiler as oracle), run by the driver for the property they belong to.
+NOSTD = ["cargo", "build", "--offline", "--manifest-path", "/repo/fast-tlsh/Cargo.toml", "--no-default-features"]
+OBLIGATIONS = {
+    "C18": [
+        {"name": "no-std no-alloc", "cmd": NOSTD},
+        {"name": "no-std + opt-default", "cmd": NOSTD + ["--features", "opt-default"]},
+        {"name": "no-std + opt-embedded-default", "cmd": NOSTD + ["--features", "opt-embedded-default,opt-low-memory-buckets"]},
+        {"name": "no-std + simd", "cmd": NOSTD + ["--features", "simd"]},
+        {"name": "no-std + strict-parser", "cmd": NOSTD + ["--features", "strict-parser"]},
+        {"name": "no-std + serde", "cmd": NOSTD + ["--features", "serde"]},
+        {"name": "no-std + unsafe", "cmd": NOSTD + ["--features", "unsafe,simd"]},
+        {"name": "alloc only", "cmd": NOSTD + ["--features", "alloc,easy-functions"]},
+    ],
+}
+
 NOT_APPLICABLE = {}
